@@ -111,6 +111,12 @@ Proof. exact v1_decode_encode. Qed.
 Theorem C16_v1_decode_no_panic : forall via shape bytes, decode1 via shape bytes <> Panic1.
 Proof. exact decode1_no_panic. Qed.
 
+(* TupleKeyParser::peek_next (the untyped path used by Schema) reads back the first field's number,
+   type and direction from an encoded key: unfield_number inverts field_number *)
+Theorem C16_v1_peek_next : forall fl t a rest, wf1 (fl :: t) -> encode1 (fl :: t) = Some a ->
+  peek_next (a ++ rest) = Some (Some (f_num fl, kty_of (f_val fl), f_dir fl)).
+Proof. exact v1_peek_next. Qed.
+
 (* ---- non-vacuity: the hypotheses are met by concrete, non-trivial tuples ---- *)
 Ltac wf_solve :=
   repeat match goal with
